@@ -851,6 +851,20 @@ func (g *Gen) transCall(e *Expr, env *TEnv) tvT {
 		// strkey(s): the content identity of a string (what map lookups and == compare)
 		s := g.trans(args[0], env)
 		return tvT{t: g.mapKey(s.t, types.NewMap(types.Typ[types.String], types.Typ[types.Bool])), sort: "Int"}
+	case "val":
+		// val(p): the array VALUE stored at p, where p denotes an addressable array (a field such as
+		// tx.hash, which otherwise denotes its location so that tx.hash[i] and tx.hash[:] work)
+		x := g.trans(args[0], env)
+		if pt, ok := x.gt.Underlying().(*types.Pointer); ok {
+			if at, ok := pt.Elem().Underlying().(*types.Array); ok {
+				c, _ := g.memComp(at.Elem())
+				return tvT{t: fmt.Sprintf("(select %s %s)", env.heap(c), x.t), gt: pt.Elem()}
+			}
+		}
+		if _, ok := x.gt.Underlying().(*types.Array); ok {
+			return x
+		}
+		g.fail("val() of a non-array")
 	case "mem":
 		// mem(s): the backing array of slice s (Array Idx Elem), for equality statements
 		x := g.trans(args[0], env)
